@@ -3,6 +3,7 @@ package kit
 import (
 	"bufio"
 	"bytes"
+	"errors"
 	"fmt"
 	"io"
 	"log"
@@ -212,6 +213,8 @@ type Rec struct {
 	Superfluous int // WriteHeader calls after commit
 	Flushes     int
 	WriteErrs   int
+	FailAfter   int // >0: the client goes away after that many body bytes (writes beyond it fail)
+	FailDelay   time.Duration
 	preFlush    int // body bytes before first flush (-1 = none yet)
 	closeCh     chan bool
 	Pushed      []string
@@ -270,6 +273,17 @@ func (w *Rec) Write(p []byte) (int, error) {
 	}
 	if w.Method == "HEAD" {
 		return len(p), nil
+	}
+	if w.FailAfter > 0 && w.Body.Len()+len(p) > w.FailAfter {
+		// the client has gone away: the connection takes what fits and reports the failure, now and for every later write
+		k := w.FailAfter - w.Body.Len()
+		if k > 0 {
+			w.Body.Write(p[:k])
+		}
+		if w.FailDelay > 0 {
+			time.Sleep(w.FailDelay) // (a connection that stalls before it breaks: whoever produces the body gets ahead of the writer)
+		}
+		return max(k, 0), errors.New("write tcp: broken pipe (client gone, injected)")
 	}
 	if cl := w.Snap.Get("Content-Length"); cl != "" {
 		var n int
@@ -387,7 +401,11 @@ func Serve(srv http.Handler, raw string) (rec *Rec, panicVal interface{}, err er
 
 // ServeReq is Serve for an already built request.
 func ServeReq(srv http.Handler, r *http.Request) (rec *Rec, panicVal interface{}, err error) {
-	rec = NewRec(r.Method)
+	return ServeReqRec(srv, r, NewRec(r.Method))
+}
+
+// ServeReqRec is ServeReq with a writer prepared by the caller (a client that goes away: FailAfter).
+func ServeReqRec(srv http.Handler, r *http.Request, rec *Rec) (_ *Rec, panicVal interface{}, err error) {
 	func() {
 		defer func() { panicVal = recover() }()
 		srv.ServeHTTP(rec, r)
